@@ -352,6 +352,20 @@ def bool_switch_on(fn, local_or_call):
             if cur[0] == local and not cur[1]:
                 out.append((site, neg))
                 break
+            if cur[1]:
+                # a field of a tuple / struct built in this body: `match (a.flag, b.test()) { (true, false) => .. }`
+                fld = [e for e in cur[1] if e.startswith("f:")]
+                if len(fld) != 1 or len(cur[1]) != 1:
+                    break
+                bds = [d for d in fn.defs().get(cur[0], []) if d[1] in ("assign", "call")]
+                if len(bds) != 1 or bds[0][1] != "assign" or bds[0][2]["rv"]["k"] != "agg":
+                    break
+                idx = int(fld[0].split(":")[1])
+                ops = bds[0][2]["rv"].get("ops", [])
+                if idx >= len(ops):
+                    break
+                cur = op_place(ops[idx])
+                continue
             ds = [d for d in fn.defs().get(cur[0], []) if d[1] == "assign"]
             if len(ds) != 1:
                 break
